@@ -34,7 +34,7 @@ def addressing(facts):
                 texts = [txt(s.get("e")).replace(" ", "") if s.get("k") == "Expr" else ";".join("%s=%s" % (v["n"], txt(v.get("init"))) for v in s.get("vars", [])) for s in body]
                 joined = " ; ".join(texts)
                 if not any(t == "(bucket_index=(hash%_num_buckets))" for t in texts):
-                    problems.append("bucket index is not `hash % _num_buckets` (%s)" % [t for t in texts if "bucket_index=" in t])
+                    problems.append("bucket index is not `hash %% _num_buckets` (%s)" % [t for t in texts if "bucket_index=" in t])
                 if not any("push_back(((hash_seed_index*_num_buckets)+bucket_index))" in t for t in texts):
                     problems.append("cell index is not row * _num_buckets + bucket_index")
                 if not any(t in ("(hash_seed_index+=1)", "++hash_seed_index", "hash_seed_index++") for t in texts):
